@@ -82,12 +82,11 @@ func (r *RedundantWhitespaceRule) Check(ctx *linter.Context) ([]linter.Violation
 				// Calculate actual column in original line
 				column := part.startCol + match[0] + 1 // 1-indexed
 
-				// Skip if this is at the beginning of line (indentation)
-				if part.startCol == 0 && match[0] == 0 {
-					// Check if it's leading whitespace on the line
-					if strings.TrimLeft(line[:column], " \t") == "" {
-						continue // Skip leading indentation
-					}
+				// Skip leading indentation: everything up to and including the first space of
+				// the run is blank. The run need not start the line ("\t  x" is indentation
+				// too, and Fix preserves it).
+				if column <= len(line) && strings.TrimLeft(line[:column], " \t") == "" {
+					continue
 				}
 
 				violations = append(violations, linter.Violation{
